@@ -7,7 +7,7 @@ from impl import quiet
 from common import VERIF
 import panoptica.panoptica_aggregator as PA
 
-RULE = ("the real Panoptica_Aggregator under a controlled scheduler (locks, file helpers and the evaluator call wrapped "
+RULE = ("(30% of the cases resume a file in which an earlier session recorded subjects, some with empty cells) the real Panoptica_Aggregator under a controlled scheduler (locks, file helpers and the evaluator call wrapped "
         "from outside; every lock/file operation is one scheduling point): random schedules of 2-4 concurrent "
         "evaluate()/make_statistic() threads with distinct and colliding subject names, compared step by step with the "
         "Lean machine (files, lock owners) and judged at the end against a sequential run; quick: 250 random schedules + "
@@ -67,23 +67,31 @@ def reference_row(name, k):
     return rows[1]
 
 
-def one_schedule(ctx, names, kinds, sched, src):
-    """names[i]: subject of thread i (string); kinds[i] in {eval, stat}"""
+def one_schedule(ctx, names, kinds, sched, src, old=()):
+    """names[i]: subject of thread i (string); kinds[i] in {eval, stat}; old: subjects already recorded by an earlier
+    (finished) session on the same file"""
     with quiet():
-        _one_schedule(ctx, names, kinds, sched, src)
+        _one_schedule(ctx, names, kinds, sched, src, list(old))
 
 
-def _one_schedule(ctx, names, kinds, sched, src):
+def _one_schedule(ctx, names, kinds, sched, src, old):
     N = len(names)
-    inp = {"names": names, "kinds": kinds, "schedule": sched, "src": src}
+    inp = {"names": names, "kinds": kinds, "schedule": sched, "src": src, "old": old}
     d = workdir("c16")
     H = aggsched.Harness(d)
     try:
+        uniq = sorted(set(names) | set(old))
+        code = {n: uniq.index(n) + 1 for n in uniq}
+        if old:
+            H.uninstall()
+            agg0 = PA.Panoptica_Aggregator(mk_evaluator(), H.out)
+            for n in old:
+                a, b = subject_arrays(code[n])
+                agg0.evaluate(a, b, n)
+            H.install()
         ev = aggsched.EvProxy(mk_evaluator(), lambda: H.C)
         with quiet():
             agg = PA.Panoptica_Aggregator(ev, H.out)
-        uniq = sorted(set(names))
-        code = {n: uniq.index(n) + 1 for n in uniq}
         stats = {}
 
         def mk(i):
@@ -142,7 +150,7 @@ def _one_schedule(ctx, names, kinds, sched, src):
             fails.append(f"thread {i} raised {type(e).__name__}: {e}")
         if not all_done:
             fails.append("a call is still blocked after every thread was given 40 further turns")
-        want = sorted({n for n, kd in zip(names, kinds) if kd == "eval"})
+        want = sorted({n for n, kd in zip(names, kinds) if kd == "eval"} | set(old))
         if final["hdrs"] != 1:
             fails.append(f"header present {final['hdrs']} times")
         if sorted(final["rows"]) != want:
@@ -157,7 +165,8 @@ def _one_schedule(ctx, names, kinds, sched, src):
         if fails:
             ctx.violation("C16 violated: " + fails[0], inp, impl={"final": {k2: final[k2] for k2 in ("hdrs", "rows", "buf")}}, key={"kind": "concurrent"})
         # ---------------- correspondence with the Lean machine, step by step
-        trace = ctx.driver().ask({"op": "agg_trace", "init": {"out_exists": False, "hdr": False, "rows": [], "buf_exists": False, "buf": []},
+        init = {"out_exists": bool(old), "hdr": bool(old), "rows": [code[n] for n in old], "buf_exists": bool(old), "buf": [code[n] for n in old]}
+        trace = ctx.driver().ask({"op": "agg_trace", "init": init,
                                   "names": [code[n] for n in names], "ops": ops})
         for idx, o in obs:
             m = trace[idx]
@@ -257,7 +266,12 @@ def rand_case(ctx, tag, i):
         sched = []
         while len(sched) < L:
             sched += [rng.randrange(N)] * rng.randint(1, 5)
-    one_schedule(ctx, names, kinds, sched, f"{tag}{i}")
+    old = []
+    if rng.random() < 0.3:
+        # an earlier, finished session already recorded some subjects (incl. ones whose rows contain empty cells)
+        old = rng.sample(["s 3", "s-4", "s1", "s2"], rng.randint(1, 3))
+        ctx.count("resumed_file")
+    one_schedule(ctx, names, kinds, sched, f"{tag}{i}", old=old)
 
 
 def run(ctx):
@@ -287,4 +301,4 @@ def replay(ctx, rec):
     if i.get("mode") == "fork":
         fork_run(ctx, len(i["names"]), i["names"], i["delay"], "replay")
     else:
-        one_schedule(ctx, i["names"], i["kinds"], i["schedule"], "replay")
+        one_schedule(ctx, i["names"], i["kinds"], i["schedule"], "replay", old=i.get("old", []))
